@@ -11,7 +11,8 @@
   BOUNDS   slice reads are bounded (n > len => Err)
   BLOCKS   block-header protocol of arrays/maps (negative count => byte size read on both paths, no overflowing
            negation, zero count ends, countdown re-enters the header read at zero)
-           the only skip in the block header is the one by the advertised byte size (no computed skip)
+           the only skip in the block header is the one by the advertised byte size (no computed skip), and nothing
+           else in the deserializer skips bytes
   NEWTYPE  serde's newtype struct is transparent on both sides (serializer forwards the inner value; deserializer answers
            deserialize_newtype_struct with visit_newtype_struct(self))                        (found F17; shared C01, C20)
   SEQEND   every visit_seq over an array access lends the access and reads the array to its end marker afterwards
